@@ -896,7 +896,14 @@ func OnceBodies(fn *ssa.Function) []OnceBody {
 		if f == nil || f.Name() != "Do" || f.Signature.Recv() == nil || !isOnceType(f.Signature.Recv().Type()) {
 			continue
 		}
-		ob := OnceBody{Site: cs, Once: Addr(cs.Common().Args[0])}
+		recv := cs.Common().Args[0]
+		// go-deadlock's Once embeds sync.Once: x.Do is the promoted method on &x.Once — name the outer value
+		if fa, ok := recv.(*ssa.FieldAddr); ok {
+			if fv := fieldVar(fa.X.Type(), fa.Field); fv != nil && fv.Embedded() && isOnceType(deref(fa.X.Type())) {
+				recv = fa.X
+			}
+		}
+		ob := OnceBody{Site: cs, Once: Addr(recv)}
 		switch a := cs.Common().Args[1].(type) {
 		case *ssa.MakeClosure:
 			ob.Body = a.Fn.(*ssa.Function)
